@@ -37,6 +37,7 @@ PROPS["C15"] = {
         {"name": "c15_events_2x2", "fn": "c15_events", "params": {"quick": {"events": 4, "ops": 2, "nodes": 2}, "thorough": {"events": 5, "ops": 2, "nodes": 2}}, "covers": ["ack.counted", "ack.duplicate-or-foreign"]},
         {"name": "c15_events_3x3", "fn": "c15_events", "params": {"quick": {"events": 3, "ops": 3, "nodes": 3}, "thorough": {"events": 4, "ops": 3, "nodes": 3}}},
         {"name": "c15_events_1x2", "fn": "c15_events", "params": {"quick": {"events": 5, "ops": 1, "nodes": 2}, "thorough": {"events": 6, "ops": 1, "nodes": 2}}},
+        {"name": "c15_race", "covers": ["race.ack-before-second-registration"]},
     ],
     "bounds": {"quick": "event sequences of length 4 over 2 ops x 2 nodes, length 3 over 3 x 3, length 5 over 1 op x 2 nodes; each event register(op,node) or `ack op node` through process_request; each (op,node) registered at most once",
                "thorough": "lengths 5 / 4 / 6"},
@@ -113,6 +114,7 @@ PROPS["C09"] = {
         {"name": "c09_no_credentials"},
         {"name": "c09_user_permissions", "covers": ["permission.denied-case", "permission.granted-case"], "budget_s": {"quick": 900, "thorough": 3600}},
         {"name": "c09_failed_rebind"},
+        {"name": "c09_foreign_database", "covers": ["foreign-db.refused-seen"]},
     ],
     "bounds": {"quick": "one command; administrative / cluster words (21 words, plain and inside the rp wrapper) x 0..3 symbolic tokens (<= 3 chars) x {fresh session, database-token session}; data words (13) before any valid credential (nothing, wrong password, wrong token, unknown database); user-token session with permission list in {none, r, w, i, x, rwix} x pattern in {a*, *z, m} x key = symbolic token (<= 3 chars) x 8 operations (get, get-safe, watch, set, set-safe, increment, remove, resolve); failed use-db (wrong user token / wrong database token / unknown database, symbolic wrong token) keeps binding and rights",
                "thorough": "same with tokens <= 5 chars"},
@@ -126,6 +128,7 @@ PROPS["C08"] = {
         {"name": "c08_noninterference", "params": {"quick": {"arglen": 8, "rp": 0}}, "budget_s": {"quick": 900, "thorough": 3600}},
         {"name": "c08_noninterference_rp", "fn": "c08_noninterference", "params": {"quick": {"arglen": 8, "rp": 1}}, "budget_s": {"quick": 900, "thorough": 3600}, "thorough_only": True},
         {"name": "c08_token_not_removable"},
+        {"name": "c08_via_secondary", "covers": ["secure-cluster.on-secondary"]},
     ],
     "bounds": {"quick": "self-composition: two servers identical except for the contents of $$ keys ($$s = '7' vs 'x y', another user's token and permission list); one command = any word of the parser table except the login words x 0..3 symbolic space-free tokens of <= 8 chars (long enough to spell $$token / $$user_o) from a database-token session and from a user-token session holding 'rwix *'; reply, every line on the client channel, the $$ keys of both servers, and notifications after an administrator rewrites the secret are compared",
                "thorough": "same, also with every command wrapped in 'rp <id>'"},
